@@ -142,4 +142,10 @@ theorem C08_refines_foldl (pick pick' : Entries → Nat) (q : GoVal) (hq : keyOK
 example : specGet (.int 1) [.del (.str [97]), .set (.uint 2) (.int 9), .set (.bool true) (.int 7), .set (.int 1) (.int 5)] = some (.int 7) := by
   simp [specGet, goEqual, strKind?, numOf?, numEq, eqIntInt, eqIntUint, bint]
 
+/-- Non-vacuity: the refinement applied to a concrete history (hypotheses discharged by computation). -/
+example : tableGet (fun _ => 3) (runRev (fun _ => 5) [.set (.int 1) (.int 5), .del (.str [97])]) (.bool true) = some (.int 5) := by
+  rw [C08_refines (fun _ => 5) (fun _ => 3) (.bool true) (by simp [keyOK, noBS, rangeOK]) _
+    (by simp [opOK, keyOK, noBS, rangeOK, inInt64, minInt64, maxInt64])]
+  simp [specGet, goEqual, strKind?, numOf?, numEq, eqIntInt, bint]
+
 end Ogorek
